@@ -978,8 +978,19 @@ def count_cells(line):
     return len(got.split()) if got else 0
 
 
+SRC_THEOREMS = ['GV.C12Src.' + t for t in (
+    'polyLoop2_eq', 'polyLoop1_eq', 'lineLoop2_eq', 'lineLoop1_eq', 'hashPolyS_eq', 'hashLineS_eq', 'hashPolyM_eq', 'hashLineM_eq',
+    'hashPointS_eq', 'hashPointM_eq', 'hashShapePoint_eq', 'hashShapeMPoint_eq', 'hashShapeLine_eq', 'hashShapePoly_eq',
+    'hashShapeMLine_eq', 'hashShapeMPoly_eq', 'collLoop2_eq', 'collLoop1_eq', 'hashCollection_eq', 'coordLoop1_eq',
+    'hashCoordinates_eq',
+    'src_hashPoly_eq_reach', 'src_hashLine_eq_reach', 'src_hashPoly_sound', 'src_hashPoly_complete_of_connected',
+    'src_hashPoly_total', 'src_hashLine_total', 'src_hashShape_multi', 'src_hashCollection_spec', 'src_hashCoordinates_spec',
+)]
+
+
 def check(run):
     run.prove(MODULE, THEOREMS)
+    run.source_tie(['SrcFlood'], 'GeoVerif.Props.C12Src', SRC_THEOREMS)
     rng = run.rng
     gs, G, col, agg = _mods()
     fams = {}
